@@ -11,8 +11,15 @@ EXTRA = {"R2C01a": ["C04"], "R2C01b": ["C05"], "R2C02b": ["C03"], "R2C03a": ["C0
          "R6C08a": ["C18"], "R6C05a": ["C02"], "R6C12a": ["C09"], "R6C07b": ["C19"], "R6C11a": ["C06"],
          "R7C01a": ["C03"], "R7C04a": ["C02"], "R8C08a": ["C18"]}
 def run(sid, prop):
-    p = subprocess.run([str(V / "tools/seedrun.sh"), sid, prop], capture_output=True, text=True)
-    line = (p.stdout.strip().splitlines() or ["?"])[-1]
+    import time
+    for attempt in range(4):
+        p = subprocess.run([str(V / "tools/seedrun.sh"), sid, prop], capture_output=True, text=True)
+        line = (p.stdout.strip().splitlines() or ["?"])[-1]
+        # (concurrent `git worktree add` calls contend for one lock: a run that never started is retried, not counted as a miss)
+        if "worktree-failed" in line or line == "?":
+            time.sleep(2 + attempt)
+            continue
+        break
     return sid, prop, p.returncode, line
 jobs = []
 for d in sorted((V / "seeded").iterdir()):
@@ -30,7 +37,7 @@ out = ["# Seeded changes x checks (quick tier, /repo HEAD)", "", "| seed | check
 for sid in sorted(res):
     det = []
     for prop, (rc, line) in sorted(res[sid].items()):
-        r = "DETECTED" if rc == 1 else ("patch does not apply to HEAD" if "NOAPPLY" in line else "not detected")
+        r = "DETECTED" if rc == 1 else ("patch does not apply to HEAD" if "NOAPPLY" in line else ("RUN FAILED" if "worktree-failed" in line or line == "?" else "not detected"))
         if rc == 1: det.append(prop)
         mech = line.split("::", 1)[1].strip()[:110] if "::" in line else ""
         out.append(f"| {sid} | {prop} | {r} {('- ' + mech) if mech else ''} |")
